@@ -12,6 +12,7 @@ fn main() {
     let engine = std::env::args().nth(1).unwrap_or_default();
     let f: fn(&serde_json::Value) -> serde_json::Value = match engine.as_str() {
         "retryopts" => engines::retryopts::run,
+        "filter" => engines::filter::run,
         other => {
             eprintln!("unknown engine `{other}`");
             std::process::exit(2);
